@@ -338,8 +338,10 @@ namespace rkcommon {
     template <typename T>
     inline void Optional<T>::default_construct_storage_if_needed()
     {
-      if (!has_value())
+      if (!has_value()) {
         new (storage.data()) T();
+        hasValue = true;
+      }
     }
 
     // Comparison functions ///////////////////////////////////////////////////
